@@ -972,7 +972,9 @@ def gen_lists(ctx, pool, n):
         if r < 0.6:
             arg, terms, pure = L.random_expr(rng, names, odd)
             kind = "expr"
-            if not any(op in arg for op in ("<", ">", "==")):
+            if arg == "":
+                kind = "none"
+            elif not any(op in arg for op in ("<", ">", "==")):
                 kind = "glob"          # no operator: the argument is a (literal) shell pattern
                 if any(ch in arg for ch in "[]"):
                     continue
@@ -1041,7 +1043,7 @@ def gen_stacks(ctx, pool, n):
 # ---- generators -------------------------------------------------------------------------------------------
 
 SIZES = {   # name sets and case counts per tier; "search" is the budget of the hunt for a failing input after a correspondence break
-    "quick":    dict(g1404=300,  wide=330,  arb_sets=45,  match=2500,  latest=600,  stacks=150,  legal=600,  enum=1500, lists=110),
+    "quick":    dict(g1404=300,  wide=330,  arb_sets=45,  match=2500,  latest=600,  stacks=130,  legal=600,  enum=1500, lists=110),
     "search":   dict(g1404=1404, wide=700,  arb_sets=150, match=10000, latest=2000, stacks=450,  legal=2000, enum=8000, lists=400),
     "thorough": dict(g1404=1404, wide=1600, arb_sets=600, match=40000, latest=8000, stacks=2500, legal=8000, enum=None, lists=2500),
 }
@@ -1165,73 +1167,156 @@ def run_case(ctx, c):
         eval_small(ctx, [c])
 
 
-def run(ctx, sz=None):
-    sz = sz or SIZES["thorough" if (ctx.tier == "thorough" or ctx.escalated) else "quick"]
-    cc = corpus_cases()
-    ctx.hist("corpus", len(cc))
-    for c in cc:
-        run_case(ctx, c)
+def arbitrary_set(ctx):
+    names = list(dict.fromkeys(L.random_arbitrary(ctx.rng) for _ in range(32)))
+    # a few conventional names among them: mixed comparisons
+    names += [L.render(L.random_conventional(ctx.rng)) for _ in range(4)]
+    eval_names(ctx, list(dict.fromkeys(names)), tag="arbitrary")
+
+
+def boundary_sets(ctx, pool):
+    """The boundary of the conventional class (docs/notes/g10.md, C10_boundary_witness): a component `letters* 9+ letter …`
+    is compared as a string with everything and no digit string sorts above it, so the order stays transitive when such
+    components are added; any other digit run before a letter closes a cycle.  Not a clause of the property: counted only."""
+    import re as _re
+    rng = ctx.rng
+    base = [nme for nme, _ in rng.sample(pool, min(len(pool), 70))]
+    nines, others = [], []
+    for nme in base[:50]:
+        parts = _re.split(r"([._])", nme.split("-")[0].split("+")[0])
+        i = rng.randrange(0, len(parts), 2)
+        lead = _re.match(r"[A-Za-z]*", parts[i]).group(0)
+        tail = rng.choice("abz") + rng.choice(["", "1", "9", "x2"])
+        nines.append("".join(parts[:i] + [lead + "9" * rng.choice([1, 1, 2]) + tail] + parts[i + 1:]))
+        others.append("".join(parts[:i] + [lead + rng.choice(["0", "1", "8", "19", "90"]) + tail] + parts[i + 1:]))
+    for tag, extra in (("boundary-nines", nines), ("boundary-other-digits", others)):
+        names = list(dict.fromkeys(base + extra))
+        isrt, _ = eval_names(ctx, names, tag=tag)
+        ok = [i for i in range(len(names)) if isrt[i][i] == "="]
+        ctx.hist("%s/intransitive-triples(first 50)" % tag, len(L.intransitive_triples(isrt, ok, limit=50)))
+    if ctx.histogram.get("boundary-nines/intransitive-triples(first 50)"):
+        ctx.note("the order is not transitive on conventional names + all-nines components: the characterisation in docs/notes/g10.md is wrong")
+
+
+LIST_FLOORS = (("list/tagged-version-fails-expression", 3), ("list/tagged-version-satisfies-expression", 3),
+               ("list/latest-of-a-stack-fails-expression", 1), ("list/tags=none", 3), ("list/tags=latest", 1),
+               ("list/arg=glob", 3), ("list/arg=none", 3), ("list/arg=bad", 1), ("find/decided-by=current", 2),
+               ("find/decided-by=latest", 2), ("entry/expr/versionExpr", 3), ("entry/glob/explicit", 1))
+FLOORS = ("stack/branch=cache", "stack/branch=db", "stack/ties-inside-a-stack", "stack/string-order-differs-from-numeric-order",
+          "stack/minver:some", "stack/minver:none", "stack/oracle:latest_of_matches", "stack/oracle:match_iff_relation",
+          "arbitrary/strict:U", "arbitrary/sort:<", "arbitrary/sort:M", "match/outcome=match", "match/outcome=nomatch",
+          "legal/outcome=relational", "legal/outcome=plain", "legal/outcome=bad",
+          "match/text:word-or", "match/text:and", "match/text:no-blank-after-operator", "match/text:no-blank-around-||",
+          "match/text:bare-term", "match/text:tab-or-double-blank", "match/text:and-after-or", "match/text:or-after-and",
+          "match/oracle:match_iff_relation", "wide/sort:=", "g1404/sort:<")
+
+
+def run_sizes(ctx, sz):
+    """One pass over every class of case with the budgets `sz`, then the distribution floors.  Returns the pool of
+    conventional names.  The classes that need real stacks (the slowest, and the ones whose input classes were added
+    last) come before the large name matrices, so that a loaded machine starves the matrices and not them."""
     pool = []
+    for tag, names, descs in conv_sets(ctx, dict(sz, g1404=min(sz["g1404"], 120), wide=min(sz["wide"], 120))):
+        if ctx.out_of_time():
+            break
+        eval_names(ctx, names, descs, tag=tag)        # a first, small slice: it also provides the pool for the other classes
+        pool += list(zip(names, descs))
+    if pool and not ctx.out_of_time():
+        eval_chunks(ctx, gen_lists(ctx, pool, sz["lists"]), 60)
+        if not ctx.out_of_time():
+            for k, floor in LIST_FLOORS:
+                if ctx.histogram.get(k, 0) < floor:
+                    raise common.InfraError("degenerate distribution: %d listing cases under %r (floor %d)" % (ctx.histogram.get(k, 0), k, floor))
+    if pool and not ctx.out_of_time():
+        eval_chunks(ctx, gen_stacks(ctx, pool, sz["stacks"]), 80)
+    if pool and not ctx.out_of_time():
+        eval_chunks(ctx, gen_small(ctx, pool, sz["match"], sz["latest"]) + gen_legal(ctx, pool, sz["legal"])
+                    + gen_enum_exprs(ctx, sz["enum"]), 6000)
+    # arbitrary strings over the well-formed alphabet, in sets (all ordered pairs of each set)
+    for _ in range(sz["arb_sets"]):
+        if ctx.out_of_time():
+            break
+        arbitrary_set(ctx)
+    if pool and not ctx.out_of_time():
+        boundary_sets(ctx, pool)
     for tag, names, descs in conv_sets(ctx, sz):
         if ctx.out_of_time():
             break
         eval_names(ctx, names, descs, tag=tag)
         pool += list(zip(names, descs))
-    # arbitrary strings over the well-formed alphabet, in sets (all ordered pairs of each set)
-    for _ in range(sz["arb_sets"]):
-        if ctx.out_of_time():
-            break
-        names = list(dict.fromkeys(L.random_arbitrary(ctx.rng) for _ in range(32)))
-        # a few conventional names among them: mixed comparisons
-        names += [L.render(L.random_conventional(ctx.rng)) for _ in range(4)]
-        eval_names(ctx, list(dict.fromkeys(names)), tag="arbitrary")
-    if pool and not ctx.out_of_time():
-        # the boundary of the conventional class (docs/notes/g10.md, C10_boundary_witness): a component `letters* 9+ letter …`
-        # is compared as a string with everything and no digit string sorts above it, so the order stays transitive when such
-        # components are added; any other digit run before a letter closes a cycle.  Not a clause of the property: counted only.
-        import re as _re
-        rng = ctx.rng
-        base = [nme for nme, _ in rng.sample(pool, min(len(pool), 70))]
-        nines, others = [], []
-        for nme in base[:50]:
-            parts = _re.split(r"([._])", nme.split("-")[0].split("+")[0])
-            i = rng.randrange(0, len(parts), 2)
-            lead = _re.match(r"[A-Za-z]*", parts[i]).group(0)
-            tail = rng.choice("abz") + rng.choice(["", "1", "9", "x2"])
-            nines.append("".join(parts[:i] + [lead + "9" * rng.choice([1, 1, 2]) + tail] + parts[i + 1:]))
-            others.append("".join(parts[:i] + [lead + rng.choice(["0", "1", "8", "19", "90"]) + tail] + parts[i + 1:]))
-        for tag, extra in (("boundary-nines", nines), ("boundary-other-digits", others)):
-            names = list(dict.fromkeys(base + extra))
-            isrt, _ = eval_names(ctx, names, tag=tag)
-            ok = [i for i in range(len(names)) if isrt[i][i] == "="]
-            ctx.hist("%s/intransitive-triples(first 50)" % tag, len(L.intransitive_triples(isrt, ok, limit=50)))
-        if ctx.histogram.get("boundary-nines/intransitive-triples(first 50)"):
-            ctx.note("the order is not transitive on conventional names + all-nines components: the characterisation in docs/notes/g10.md is wrong")
-    if pool and not ctx.out_of_time():
-        eval_chunks(ctx, gen_small(ctx, pool, sz["match"], sz["latest"]) + gen_legal(ctx, pool, sz["legal"])
-                    + gen_enum_exprs(ctx, sz["enum"]), 6000)
-    if pool and not ctx.out_of_time():
-        eval_chunks(ctx, gen_lists(ctx, pool, sz["lists"]), 60)
-        if not ctx.out_of_time():
-            for k, floor in (("list/tagged-version-fails-expression", 3), ("list/tagged-version-satisfies-expression", 3),
-                             ("list/latest-of-a-stack-fails-expression", 1), ("list/tags=none", 3), ("list/tags=latest", 1),
-                             ("list/arg=glob", 3), ("list/arg=none", 3), ("list/arg=bad", 1), ("find/decided-by=current", 2),
-                             ("find/decided-by=latest", 2), ("entry/expr/versionExpr", 3), ("entry/glob/explicit", 1)):
-                if ctx.histogram.get(k, 0) < floor:
-                    raise common.InfraError("degenerate distribution: %d listing cases under %r (floor %d)" % (ctx.histogram.get(k, 0), k, floor))
-    if pool and not ctx.out_of_time():
-        eval_chunks(ctx, gen_stacks(ctx, pool, sz["stacks"]), 80)
     h = ctx.histogram
     if not ctx.out_of_time():
-        for k in ("stack/branch=cache", "stack/branch=db", "stack/ties-inside-a-stack", "stack/string-order-differs-from-numeric-order", "stack/minver:some",
-                  "stack/minver:none", "stack/oracle:latest_of_matches", "stack/oracle:match_iff_relation", "arbitrary/strict:U", "arbitrary/sort:<", "arbitrary/sort:M", "match/outcome=match", "match/outcome=nomatch", "legal/outcome=relational", "legal/outcome=plain", "legal/outcome=bad",
-                  "match/text:word-or", "match/text:and", "match/text:no-blank-after-operator", "match/text:no-blank-around-||", "match/text:bare-term",
-                  "match/text:tab-or-double-blank", "match/text:and-after-or", "match/text:or-after-and",
-                  "match/oracle:match_iff_relation", "wide/sort:=", "g1404/sort:<"):
+        for k in FLOORS:
             if not h.get(k):
                 raise common.InfraError("degenerate distribution: nothing counted under %r" % k)
         if h.get("match/outcome=match", 0) < 0.1 * h.get("match/terms=1", 1):
             raise common.InfraError("degenerate distribution: hardly any expression matches")
+    return pool
+
+
+def run_enlarged(ctx, sz, pool):
+    """The thorough tier's budget (also used inside the quick tier's time limit when a mirrored function changed, and by
+    the search after a correspondence break): every class gets a piece in turn, so that none is starved when time runs out."""
+    def lists():
+        cases = gen_lists(ctx, pool, sz["lists"])
+        for i in range(0, len(cases), 60):
+            eval_small(ctx, cases[i:i + 60])
+            yield
+
+    def stacks():
+        cases = gen_stacks(ctx, pool, sz["stacks"])
+        for i in range(0, len(cases), 80):
+            eval_small(ctx, cases[i:i + 80])
+            yield
+
+    def small():
+        cases = gen_small(ctx, pool, sz["match"], sz["latest"]) + gen_legal(ctx, pool, sz["legal"]) + gen_enum_exprs(ctx, sz["enum"])
+        ctx.rng.shuffle(cases)
+        for i in range(0, len(cases), 6000):
+            eval_small(ctx, cases[i:i + 6000])
+            yield
+
+    def arbitrary():
+        for k in range(sz["arb_sets"]):
+            arbitrary_set(ctx)
+            if k % 25 == 24:
+                yield
+
+    def matrices():
+        for tag, names, descs in conv_sets(ctx, dict(sz, g1404=0)):      # the wide grammar first …
+            if tag != "g1404":
+                eval_names(ctx, names, descs, tag=tag)
+                yield
+        for tag, names, descs in conv_sets(ctx, dict(sz, wide=0)):       # … the whole 1,404 grammar (all pairs, every triple) last
+            if tag == "g1404":
+                eval_names(ctx, names, descs, tag=tag)
+                yield
+
+    its = [lists(), stacks(), small(), arbitrary(), matrices()]
+    while its and not ctx.out_of_time():
+        for it in list(its):
+            if ctx.out_of_time():
+                break
+            try:
+                next(it)
+            except StopIteration:
+                its.remove(it)
+    if its:
+        ctx.note("time limit reached in the enlarged budget: %d of 5 case classes not exhausted" % len(its))
+
+
+def run(ctx, sz=None):
+    """Corpus; then the ORDINARY quick portion, completely and with its floors; only then — thorough tier, or quick tier with
+    a stale fingerprint (ctx.escalated: somebody edited mirrored code, which is exactly when the new input classes
+    matter), or the search after a correspondence break (sz given) — the enlarged budget, class by class in turn."""
+    cc = corpus_cases()
+    ctx.hist("corpus", len(cc))
+    for c in cc:
+        run_case(ctx, c)
+    pool = run_sizes(ctx, SIZES["quick"])
+    big = sz or (SIZES["thorough"] if (ctx.tier == "thorough" or ctx.escalated) else None)
+    if big is not None and pool and not ctx.out_of_time():
+        run_enlarged(ctx, big, pool)
     if ctx.evaluations and ctx.distinct_nontrivial < ctx.evaluations * 0.3:
         raise common.InfraError("degenerate distribution: %d non-trivial of %d" % (ctx.distinct_nontrivial, ctx.evaluations))
 
